@@ -237,7 +237,7 @@ def rule_fw2(ctx: Ctx) -> RuleResult:
                 pads = it[:-1]
                 ok = last_ok and len(wr) == 1 and wr[0].key == EVKEY and (skipped or bool(pads))
                 for m in pads:
-                    ok = ok and m.event.keyclass == SAME and m.event.how == "replace"
+                    ok = ok and m.event.keyclass == SAME and m.event.kind == "Next" and m.event.store == EVSTORE   # i._replace(item=) or OnNextMux(key, item, store) written out
                     pay = m.event.payload
                     if what == "pad_start":
                         v = cfg.get("value")
